@@ -256,24 +256,38 @@ func (e *Engine) Verify(name string) (run *FuncRun, err error) {
 		return run, nil
 	}
 	run.canary("exit", exit.pc)
-	// postconditions
-	post := &SpecEnv{eng: e, pkg: env.pkg, pkgScope: env.pkgScope, cur: exit, old: run.entry, vars: map[string]Val{}}
-	for k, v := range run.params {
-		post.vars[k] = v
-	}
-	bindResults(post, ret, resultNames(fn, c), fn.Signature.Results())
-	for j, en := range c.Ensures {
-		g := post.evalBool(en.Expr)
-		fr.oblige("ensures", j+1, "", en.Tags, exit, g, en.Text, fn.Pos())
-	}
-	// frame
+	_ = ret
 	pre := &SpecEnv{eng: e, pkg: env.pkg, pkgScope: env.pkgScope, cur: run.entry, old: run.entry, vars: env.vars}
 	locs := pre.evalModLocs(c.Modifies)
 	var ftags []string
 	for _, m := range c.Modifies {
 		ftags = append(ftags, m.Tags...)
 	}
-	fr.frameCheck("frame", run.entry, exit, locs, ftags, fn.Pos(), "")
+	// postconditions and frame are checked at every return site separately (smaller queries,
+	// and a failure names the return statement)
+	rets := append([]edgeState{}, fr.returns...)
+	sort.SliceStable(rets, func(i, j int) bool {
+		return fr.ordinals["return"][rets[i].from.Instrs[len(rets[i].from.Instrs)-1]] < fr.ordinals["return"][rets[j].from.Instrs[len(rets[j].from.Instrs)-1]]
+	})
+	for _, r := range rets {
+		rst := r.st
+		rv := rst.cells[fr.retCell]
+		suffix := ""
+		if len(rets) > 1 {
+			suffix = fmt.Sprintf("@ret%d", fr.ordinals["return"][r.from.Instrs[len(r.from.Instrs)-1]])
+		}
+		pos := r.from.Instrs[len(r.from.Instrs)-1].Pos()
+		post := &SpecEnv{eng: e, pkg: env.pkg, pkgScope: env.pkgScope, cur: rst, old: run.entry, vars: map[string]Val{}}
+		for k, v := range run.params {
+			post.vars[k] = v
+		}
+		bindResults(post, rv, resultNames(fn, c), fn.Signature.Results())
+		for j, en := range c.Ensures {
+			g := post.evalBool(en.Expr)
+			fr.oblige("ensures", j+1, suffix, en.Tags, rst, g, en.Text, pos)
+		}
+		fr.frameCheck("frame", run.entry, rst, locs, ftags, pos, suffix)
+	}
 	return run, nil
 }
 
@@ -412,8 +426,8 @@ func (e *Engine) scriptFor(o *Oblig, axioms []*Term) (string, bool) {
 		gm = append(gm, in.T)
 	}
 	ax := append(append([]*Term{}, axioms...), strLitAxiomsFor(o.PC, o.Goal)...)
-	goal, extra := prepareQuery(o.PC, o.Goal)
-	return Script(logicOpts, strPrelude, ax, []*Term{o.PC, extra}, Not(goal), gm)
+	goal, pc, extra := prepareQuery(o.PC, o.Goal, o.Hints)
+	return Script(logicOpts, strPrelude, ax, []*Term{pc, extra}, Not(goal), gm)
 }
 
 func (e *Engine) Discharge(obligs []*Oblig, timeoutS int, stats *DischargeStats) {
